@@ -24,6 +24,8 @@ RULES = {
           "_style_args; keys of _style_args = keyword-only parameters of _render_image minus the internal ones, with equal defaults; "
           "field patterns are pairwise non-overlapping; _get_style_format_spec anchors every field after the first "
           "(pattern.match at pos=end) and rejects any remainder",
+    "R5": "the specifier is checked by the class whose style part it carries: _check_format_spec / _check_style_format_spec / _check_style_args are called "
+          "through an instance, cls, type(x) or super(), never through a base class named literally",
     "R4": "checking has no side effect: the functions reachable from _check_format_spec store to no attribute/global, and every "
           "rejection raises ValueError/TypeError/StyleError",
 }
@@ -301,6 +303,20 @@ def run(ck, m):
         pass
     ends = [st for t, st in stores_in(loops[1]) if isinstance(t, ast.Name) and t.id == "end"]
     ck.ob("R3", loops[1], len(ends) == 1 and norm(ends[0].value) == "match.end()", "`end` must advance to match.end() after each field", stmt="_get_style_format_spec: end advances")
+
+    # ---- R5: the specifier is checked by the class whose style part it carries -----------------------
+    # _check_format_spec / _check_style_format_spec / _check_style_args dispatch on `cls` to the style's own field grammar and argument table:
+    # every call site must go through an instance, `cls`, `type(x)` or `super()` - never through a base class named literally
+    ROOTS = {"BaseImage", "TextImage", "GraphicsImage"}
+    n5 = 0
+    for rel, q, fn in m.functions():
+        for c in body_walk(fn):
+            if isinstance(c, ast.Call) and isinstance(c.func, ast.Attribute) and c.func.attr in ("_check_format_spec", "_check_style_format_spec", "_check_style_args"):
+                n5 += 1
+                recv = norm(trace(fn, c.func.value, use=c))
+                ck.ob("R5", enclosing_stmt(c), recv not in ROOTS, f"{q}: `{short(c, 60)}` checks the specifier against `{recv}` itself, whose style grammar is empty: every style-specific part "
+                      "would be rejected (or accepted) regardless of the image's own style", stmt=f"{q}: {c.func.attr} called on the image / its class")
+    ck.expect(n5 >= 5, f"call sites of the specifier checkers found: {n5}")
 
     # ---- R4 ----------------------------------------------------------------------------
     names = {"_check_format_spec", "_check_formatting", "_check_style_format_spec", "_get_style_format_spec", "_check_style_args"}
